@@ -88,6 +88,8 @@ def scan(kind):
             if hit:
                 fn, loops = enclosing(lines, i)
                 e = {'file': rel, 'fn': fn, 'snippet': norm(l)}
+                if kind == 'static':
+                    e['snippet'] = norm(l.split('=')[0])       # the item and its type; the initialiser may be rewritten freely
                 if kind == 'root_scope':
                     e['loops'] = loops
                 out.append(e)
@@ -97,31 +99,34 @@ def scan(kind):
 
 
 def scan_hash_iter():
-    """functions that mention HashMap/HashSet and iterate: for .. in <ident>, .iter(), .keys(), .values(), into_iter, {:?}.
-    Coarse on purpose: every function whose body both names a hash container type (or a known hash-typed
-    binding) and iterates over something is listed with its iteration snippets."""
+    """iterations over a std HashMap / HashSet (whose order depends on the per-process hash seed): in every function, the
+    bindings that are hash-typed (a parameter or `let` annotated with HashMap/HashSet, or initialised from HashMap:: / HashSet::
+    / a .collect::<Hash..>()) and every `for .. in x`, x.iter(), .keys(), .values(), .into_iter(), .drain() on them. Iterating a
+    Vec or an IndexMap in a function that also owns a HashMap is not listed (so extracting a helper does not disturb the list)."""
     out = []
-    hash_typed = re.compile(r'HashMap|HashSet')
+    it_methods = r'(?:iter|iter_mut|keys|values|values_mut|into_iter|drain|into_keys|into_values)'
     for rel in rust_files():
         text = open(os.path.join(REPO, rel), encoding='utf-8').read()
         cut = text.find('#[cfg(test)]\nmod ')
         if cut >= 0:
             text = text[:cut]
         text = strip_comments(text)
-        # split into top-level-ish fn chunks
         for m in re.finditer(r'\bfn\s+([A-Za-z0-9_]+)[^{;]*\{', text):
             start = m.end()
-            depth, j = 1, start
-            while j < len(text) and depth:
-                c = text[j]
+            depth, j2 = 1, start
+            while j2 < len(text) and depth:
+                c = text[j2]
                 depth += (c == '{') - (c == '}')
-                j += 1
-            body = text[m.start():j]
-            if not hash_typed.search(body):
-                continue
-            its = sorted(set(norm(x) for x in re.findall(r'for\s+[^\n]*\s+in\s+[^\n{]*|\b\w+\.(?:iter|keys|values|into_iter|drain)\(\)[^\n;]{0,40}', body)))
-            if its:
-                out.append({'file': rel, 'fn': m.group(1), 'snippet': ' ;; '.join(its)[:400]})
+                j2 += 1
+            head, body = text[m.start():start], text[start:j2]
+            idents = set(re.findall(r'(\w+)\s*:\s*&?\s*(?:mut\s+)?(?:std::collections::)?Hash(?:Map|Set)\b', head))
+            idents |= set(re.findall(r'\blet\s+(?:mut\s+)?(\w+)\s*:\s*[^=;]*\bHash(?:Map|Set)\b', body))
+            idents |= set(re.findall(r'\blet\s+(?:mut\s+)?(\w+)\s*(?::[^=;]*)?=\s*(?:std::collections::)?Hash(?:Map|Set)::', body))
+            idents |= set(re.findall(r'\blet\s+(?:mut\s+)?(\w+)\s*(?::[^=;]*)?=[^;]*collect::<\s*(?:std::collections::)?Hash(?:Map|Set)', body))
+            for ident in sorted(idents):
+                uses = sorted(set(re.findall(r'for\s+[^\n]*\bin\s+&?(?:mut\s+)?%s\b(?!\.(?:get|contains|entry|insert|len|is_empty))|(?<![\w.])%s\.%s\(' % (ident, ident, it_methods), body)))
+                if uses:
+                    out.append({'file': rel, 'fn': m.group(1), 'snippet': '%s: %s' % (ident, ' ;; '.join(norm(u) for u in uses)[:300])})
     return out
 
 
@@ -133,15 +138,25 @@ def compare(kind):
     """returns (current entries, problems[list of str], reviewed entries)"""
     cur = scan(kind)
     if kind == 'panic':
-        # a site that merely moves to another function of the same file (a helper is extracted, a function renamed) is
-        # the same site: panic sites are matched by file and normalised snippet
-        global key
-        saved = key
-        key = lambda e: (e['file'], None, e['snippet'], ())
-        try:
-            return _compare(kind, cur)
-        finally:
-            key = saved
+        # what matters for C08 is whether a file gained a site that can panic: sites are counted per file and per kind of site
+        # (unreachable! / unimplemented! / panic! / todo! / unwrap() / expect(); a site that moves, or whose match arm is
+        # re-spelled, is the same site; a file with MORE sites of a kind than the reviewed list has a new one
+        path = os.path.join(INV_DIR, kind + '.json')
+        rev = json.load(open(path))['sites'] if os.path.exists(path) else []
+        def kinds(e):
+            return [k2 for k2 in ('unreachable!', 'unimplemented!', 'panic!', 'todo!', '.unwrap()', '.expect(') if k2 in e['snippet']]
+        def count(es):
+            c = {}
+            for e in es:
+                for k2 in kinds(e):
+                    c[(e['file'], k2)] = c.get((e['file'], k2), 0) + 1
+            return c
+        cc, rc = count(cur), count(rev)
+        problems = ['new site: %s has %d %s site(s), the reviewed inventory %d' % (f, n, k2, rc.get((f, k2), 0)) for (f, k2), n in sorted(cc.items()) if n > rc.get((f, k2), 0)]
+        if problems:
+            rk = set((e['file'], e['snippet']) for e in rev)
+            problems += ['not in the reviewed inventory: %s: %s' % (e['file'], e['snippet']) for e in cur if (e['file'], e['snippet']) not in rk][:10]
+        return cur, problems, rev
     return _compare(kind, cur)
 
 
